@@ -1063,6 +1063,38 @@ def r9_named_value(a, tier):
         wfn = _find_walker(a, GEN, Q['Sequence']).fn
         rep.fail(wfn.qualname, 'sequence-defines', f'for a sequence defining k, x (single) and l (list) the generator emits {lines[:2]}; required first: '
                  f'ctx.define([k, x], [l]) - without it a name that does not match is missing from the AST instead of None / []', wfn.loc)
+    # (A4) what the declaration MEANS: the argument pairs the model (Model._add_defined) and the generated code (ctx.define(...) as emitted
+    #      for the same sequence, its defined names computed by the real defines_single / defines_list) hand to AST._define give the same
+    #      defaults: None for single names, [] for list names (a `name+:` is a Named too: the generator lists it in both arguments)
+    from ..minieval import MiniEval as _ME
+    from .c01 import _run_ast_define
+    mk_named = lambda cls, n: Stub(Q[cls], name=n, exp=T())  # noqa: E731
+    seq2 = Stub(Q['Sequence'], sequence=[mk_named('Named', 'k'), Stub(Q['Optional'], exp=mk_named('NamedList', 'l')), mk_named('Named', 'x'),
+                                        Stub(Q['Closure'], exp=mk_named('NamedList', 'm'))])
+    try:
+        lines2 = _emit(a, seq2)
+        decl2 = next((ln for ln in lines2 if 'define(' in ln), None)
+        gen_args = [ast.literal_eval(x) for x in ast.parse(decl2.strip()).body[0].value.args] if decl2 else None
+        ctxrec = Recorder('ctx')
+        itm = ModelInterp(a)
+        itm.call_bound(Bound(seq2, a.ct.lookup(Q['Sequence'], '_add_defined')), [ctxrec], {})
+        mod_args = next(([list(x) for x in t[1]] for t in ctxrec.trace if t[0] == 'define'), None)
+    except Unsupported as e:
+        raise AnalysisError(f'C02.R9: cannot interpret the declaration of defined names: {e}') from e
+    astc = a.p.cls('tatsu.contexts.ast.AST')
+    amethods = {n: m.node for n, m in astc.methods.items()}
+    res = {}
+    for side, args in (('model', mod_args), ('generated', gen_args)):
+        res[side] = _run_ast_define(_ME({}), amethods, {}, args[0], args[1] if len(args) > 1 else None) if args else None
+    want_defaults = {'k': None, 'x': None, 'l': [], 'm': []}
+    okm = res['model'] == want_defaults and res['generated'] == want_defaults
+    rep.add({'declaration_of': "k:'t' [l+:'t'] x:'t' {m+:'t'}", 'model_define_args': mod_args, 'generated_define_args': gen_args,
+             'model_defaults': repr(res['model']), 'generated_defaults': repr(res['generated']), 'ok': okm})
+    if not okm:
+        wfn = a.p.func('tatsu.contexts.ast.AST._define')
+        rep.fail(wfn.qualname, 'define-defaults', f"for k:'t' [l+:'t'] x:'t' {{m+:'t'}} the model declares {mod_args} -> {res['model']} and the generated parser "
+                 f'declares {gen_args} -> {res["generated"]} (AST._define interpreted); required on both sides {want_defaults}: a list name that receives '
+                 f'nothing is [] in the model and must be [] in the generated parser', wfn.loc)
     # (C) leaf primitives: returned value == last_node
     from ..modelinterp import Recorder as _Rec
     for pname in ('void', 'empty', 'dot', 'token', 'pattern'):
